@@ -205,6 +205,62 @@ theorem nts_flag_for_answered_nts (cfg : Config) (info : Info) (env : Env) (req 
     · rw [hp] at hd; cases hd
   · right; exact hx
 
+/-! #### the daemon's counters (`impl ServerStatHandler for ServerStats`, model `countersOf`) -/
+
+/-- **Every statistics entry is counted once.**  It increments `received` by one and exactly one of the kind
+    counters (accepted / denied / ignored / rate-limited / NAK) by one; `response_send_errors` is not touched (it
+    belongs to the send path); the NTS counters move only with the NTS flag, `nts_received` exactly then, and an
+    NTS sub-counter only together with its kind. -/
+theorem counters_account_once (st : Stat) :
+    (countersOf st).received = 1 ∧ (countersOf st).kinds = 1 ∧ (countersOf st).sendErrors = 0 ∧
+    (st.nts = false → (countersOf st).ntsReceived = 0 ∧ (countersOf st).ntsAccepted = 0 ∧
+      (countersOf st).ntsDenied = 0 ∧ (countersOf st).ntsRateLimited = 0) ∧
+    (st.nts = true → (countersOf st).ntsReceived = 1) ∧
+    (countersOf st).ntsAccepted ≤ (countersOf st).accepted ∧ (countersOf st).ntsDenied ≤ (countersOf st).denied ∧
+    (countersOf st).ntsRateLimited ≤ (countersOf st).rateLimited := by
+  obtain ⟨v, nts, reason, resp⟩ := st
+  cases nts <;> cases reason <;> cases resp <;> simp [countersOf, Counters.add, Counters.kinds]
+
+private theorem foldl_counters (sts : List Stat) (c : Counters) :
+    (sts.foldl (fun c st => c.add (countersOf st)) c).received = c.received + sts.length ∧
+    (sts.foldl (fun c st => c.add (countersOf st)) c).kinds = c.kinds + sts.length ∧
+    (sts.foldl (fun c st => c.add (countersOf st)) c).sendErrors = c.sendErrors := by
+  induction sts generalizing c with
+  | nil => simp
+  | cons st rest ih =>
+    obtain ⟨h1, h2, h3, _⟩ := counters_account_once st
+    obtain ⟨i1, i2, i3⟩ := ih (c.add (countersOf st))
+    simp only [List.foldl_cons, List.length_cons]
+    refine ⟨by rw [i1]; simp only [Counters.add]; omega, ?_, by rw [i3]; simp only [Counters.add]; omega⟩
+    rw [i2]
+    simp only [Counters.kinds, Counters.add] at h2 ⊢
+    omega
+
+/-- **The metrics are faithful**: after any sequence of entries, `received` is the number of entries and equals
+    the sum of the kind counters; `register` never reports a send error. -/
+theorem counters_sum (sts : List Stat) :
+    (countersOfList sts).received = sts.length ∧ (countersOfList sts).received = (countersOfList sts).kinds ∧
+    (countersOfList sts).sendErrors = 0 := by
+  obtain ⟨h1, h2, h3⟩ := foldl_counters sts {}
+  unfold countersOfList
+  refine ⟨by rw [h1]; simp, ?_, by rw [h3]⟩
+  rw [h1, h2]; simp [Counters.kinds]
+
+/-- Every handled datagram moves `received` — and one kind counter — by exactly one. -/
+theorem handled_datagram_counted_once (cfg : Config) (info : Info) (env : Env) (req : Req)
+    (h : handle cfg info env req ≠ .panic) :
+    (countersOfList (handle cfg info env req).stats).received = 1 ∧
+    (countersOfList (handle cfg info env req).stats).kinds = 1 := by
+  have hl := exactly_one_entry cfg info env req h
+  obtain ⟨h1, h2, _⟩ := counters_sum (handle cfg info env req).stats
+  rw [hl] at h1
+  exact ⟨h1, by rw [← h2, h1]⟩
+
+/-- an internal error (answer that could not be serialised) is an ignored datagram, not a send error -/
+example : countersOf ⟨4, false, .internal, .ignore⟩ = { received := 1, ignored := 1 } := by decide
+example : countersOf ⟨4, true, .policy, .time⟩ = { received := 1, accepted := 1, ntsReceived := 1, ntsAccepted := 1 } := by
+  decide
+
 /-! #### non-vacuity -/
 
 def cfg0 : Config := { denyAct := .deny, allowAct := .ignore, requireNts := none, versions := [4] }
@@ -229,3 +285,6 @@ end NtpVerif.C21
 #print axioms NtpVerif.C21.kind_matches_action
 #print axioms NtpVerif.C21.nts_flag_never_for_plain
 #print axioms NtpVerif.C21.nts_flag_for_answered_nts
+#print axioms NtpVerif.C21.counters_account_once
+#print axioms NtpVerif.C21.counters_sum
+#print axioms NtpVerif.C21.handled_datagram_counted_once
